@@ -420,6 +420,11 @@ def run_check(prop, tier, verif_seed, repo, jobs, count=None, wallcap=None, shri
                                    'process creation (fork of a pristine interpreter)'],
             'repo': repo,
         }
+        if os.environ.get('VERIF_LINES_OUT'):
+            # development aid: the (file, line) pairs behind repo_lines_reached
+            with open(os.environ['VERIF_LINES_OUT'], 'a', encoding='utf-8') as lf:
+                for pair in sorted(lines_reached):
+                    lf.write('%s %d\n' % pair)
         probes0 = sorted(k for k, v in cov['probes'].items() if v == 0)
         if probes0:
             cov['probes_stuck_at_zero'] = probes0
